@@ -126,7 +126,8 @@ fn gen_layer_block(src: &mut Src, f: &mut Flags) -> LefLayerGeometries {
                 needs_width = true;
                 // a path may consist of a single point (a width-sized dot)
                 let n = if src.prob(1, 10) { src.usize_in(7, 20) } else { src.usize_in(1, 5) };
-                LefShape::Path(None, (0..n).map(|_| gen_pt(src, &mut f.fine)).collect())
+                // (a mask number colours a path as it does a rectangle or a polygon; it is not imported)
+                LefShape::Path(if src.prob(1, 6) { Some(LefMask::new(LefDecimal::new(1, 0))) } else { None }, (0..n).map(|_| gen_pt(src, &mut f.fine)).collect())
             }
         };
         if ALLOW_UNSUPPORTED.with(|a| a.get()) && src.prob(1, 10) {
